@@ -47,6 +47,8 @@ type LV struct {
 	Enum  *Def
 	Item  string
 	Items []LV
+	Names []string // struct: field names, parallel to Items
+	Of    *Def     // struct: its definition
 }
 
 func (v LV) String() string {
@@ -73,6 +75,17 @@ func (v LV) String() string {
 			parts = append(parts, v.Items[i].String()+":"+v.Items[i+1].String())
 		}
 		return "map{" + strings.Join(parts, ",") + "}"
+	case "struct":
+		idx := make([]int, len(v.Items))
+		for i := range idx {
+			idx[i] = i
+		}
+		sort.Slice(idx, func(a, b int) bool { return v.Names[idx[a]] < v.Names[idx[b]] })
+		parts := make([]string, len(v.Items))
+		for i, j := range idx {
+			parts[i] = v.Names[j] + ":" + v.Items[j].String()
+		}
+		return "struct{" + strings.Join(parts, ",") + "}"
 	}
 	return "?"
 }
@@ -135,6 +148,35 @@ func (p *Program) Link(v *ConstVal, t *TypeRef) (LV, error) {
 				return LV{}, err
 			}
 			out.Items = append(out.Items, k, x)
+		}
+		return out, nil
+	case CStruct:
+		if kind != "struct" {
+			return LV{}, castErr("struct literal for %s", kind)
+		}
+		d := p.Lookup(p.RootOf(t).Ref)
+		given := map[string]*ConstVal{}
+		for i := 0; i+1 < len(v.Items); i += 2 {
+			given[v.Items[i].Str] = v.Items[i+1]
+		}
+		out := LV{Kind: "struct", Of: d}
+		for _, fd := range d.Fields {
+			val, ok := given[fd.Name]
+			if !ok {
+				if fd.Default == nil {
+					if fd.Req == ReqRequired {
+						return LV{}, castErr("%s is a required field", fd.Name)
+					}
+					continue
+				}
+				val = fd.Default
+			}
+			x, err := p.Link(val, fd.Type)
+			if err != nil {
+				return LV{}, err
+			}
+			out.Names = append(out.Names, fd.Name)
+			out.Items = append(out.Items, x)
 		}
 		return out, nil
 	case CRef:
@@ -220,6 +262,11 @@ func (p *Program) relink(v LV, t *TypeRef) (LV, error) {
 			out.Items = append(out.Items, x)
 		}
 		return out, nil
+	case "struct":
+		if kind != "struct" || p.Lookup(p.RootOf(t).Ref) != v.Of {
+			return LV{}, castErr("struct constant used as %s", kind)
+		}
+		return v, nil
 	case "map":
 		if kind != "map" {
 			return LV{}, castErr("map constant used as %s", kind)
